@@ -279,4 +279,68 @@ def run(repo='/repo', tier='quick'):
                   'the duplicate lookup no longer uses the case-folding getters', g.loc)
     res.assumptions += ['robustness of the token / number parsers to the spelling of header values is not decided (values)',
                         'row "unparseable C-L" is scoped to messages without Transfer-Encoding (with T-E the C-L is ignored by design and the first sentence of the statement applies)']
+    c11i(db, res)
+    c11j(db, res)
     return res
+
+
+def c11i(db, res):
+    """"chunked" is looked for as a member of the comma-separated Transfer-Encoding list. The matcher keeps an offset into the
+    token it compares with; whenever it gives up on a member (state "wait for the next comma") the offset has to go back to 0,
+    otherwise the next member is compared from the middle of the token and a real `chunked` after `chunkedx,` is missed - the
+    request is then framed by Content-Length and not flagged."""
+    res.rule('C11.i', 'the list-member matcher restarts with every member: in htp_header_has_token every store that puts the scanner into the wait-for-separator state is accompanied (same block) by the reset of the comparison offset, or every store of the start state is')
+    f = db.get('htp_header_has_token')
+    # the comparison offset: the local that subscripts the token (the last parameter)
+    tok = f.params[-1]['name']
+    offs = set()
+    for b in f.blocks:
+        exprs = list(f.blocks[b]['stmts']) + ([f.cond_of(b)[0]] if f.cond_of(b) else [])
+        for e_ in exprs:
+            for x in nodes(e_, lambda y: y.get('k') == 'index' and strip(y['base']).get('k') == 'var' and strip(y['base'])['name'] == tok and strip(y['idx']).get('k') == 'var'):
+                offs.add(strip(x['idx'])['name'])
+    # the state local: the switch operand
+    sv = None
+    for b, blk in f.blocks.items():
+        if blk.get('term', {}).get('kind') == 'SwitchStmt' and blk['stmts']:
+            e = strip(blk['stmts'][-1])
+            if e is not None and e.get('k') == 'var':
+                sv = e['name']
+    if sv is None or len(offs) != 1:
+        raise AnalysisBroken('htp_header_has_token: state local / comparison offset not found (%s, %s)' % (sv, sorted(offs)))
+    off = sorted(offs)[0]
+
+    def resets(b):
+        return any(a['op'] == '=' and strip(a['l']).get('k') == 'var' and strip(a['l'])['name'] == off and is_lit(strip(a['r']), 0) for st in f.blocks[b]['stmts'] for a in nodes(st, lambda y: y.get('k') == 'assign'))
+    stores = {}
+    for b, i, st in f.stmts():
+        for a in nodes(st, lambda y: y.get('k') == 'assign' and y['op'] == '=' and strip(y['l']).get('k') == 'var' and strip(y['l'])['name'] == sv and strip(y['r']).get('k') == 'lit'):
+            stores.setdefault(strip(a['r'])['v'], []).append((b, a))
+    wait = [v for v in stores if v not in (0, 2)]
+    n = 0
+    all_start_reset = bool(stores.get(0)) and all(resets(b) for b, a in stores.get(0, []))
+    for v in wait:
+        for b, a in stores[v]:
+            n += 1
+            res.check(resets(b) or all_start_reset, 'C11.i', 'htp_header_has_token:%s=%d@%s' % (sv, v, '|'.join('%s%s%s' % x for x, e in P.facts_at(f, b)[-1:])), '%s = 0 with the state change' % off,
+                      'htp_header_has_token gives up on a list member (%s = %d) without %s = 0: the next member is compared from the middle of the token, so "chunked" after a member that merely starts with it ("chunkedx, chunked") is not found and the request is neither framed by the chunked coding nor flagged' % (sv, v, off), a['loc'])
+    res.floor('C11.i', 'stores of the wait-for-separator state', n, 2)
+
+
+def c11j(db, res):
+    """Header lookups (Transfer-Encoding, Content-Length, Host) are by name. The field name ends at the last byte that is not
+    linear white space before the colon - however many blanks there are, so the trim is a loop."""
+    res.rule('C11.j', 'the field name is trimmed to its last non-blank byte: in both generic header parsers the boundary of the name is moved back inside a loop whose condition tests the byte in front of it for white space')
+    n = 0
+    for name in ('htp_parse_request_header_generic', 'htp_parse_response_header_generic'):
+        f = db.get(name)
+        ok = False
+        for h, body in C.loops(f):
+            dec = any(u for bb in body for st in f.blocks[bb]['stmts'] for u in nodes(st, lambda y: y.get('k') == 'un' and y['op'] in ('--', '--post') and strip(y['e']).get('k') == 'var' and strip(y['e'])['name'] == 'name_end'))
+            tests = any((c2.get('callee') in ('htp_is_lws', 'htp_is_space')) for bb in body if f.cond_of(bb) for c2 in nodes(f.cond_of(bb)[0], lambda y: y.get('k') == 'call'))
+            if dec and tests:
+                ok = True
+        n += 1
+        res.check(ok, 'C11.j', name + ':name-trim-loop', 'name_end is moved back in a loop over trailing white space',
+                  '%s no longer trims the field name in a loop: with two or more blanks before the colon the name keeps trailing white space and the lookups of Transfer-Encoding, Content-Length and Host miss the field - no smuggling / ambiguity indicator is raised' % name, f.loc)
+    res.floor('C11.j', 'generic header parsers', n, 2)
